@@ -139,7 +139,28 @@ def generate(tier, seed):
     for k, r in enumerate(reqs):
         if k % 8 == 0: lines.append("NEW")
         lines.append("EVAL " + r)
-    return {"lines": lines, "distribution": {"requests": len(reqs), "builtins": len(names), "kinds": len(ks)}}
+    # long FLAT lists (built by a loop: nesting depth 4, no recursion in the program) through the operations that walk two lists at once
+    # or copy them: the outcome is a value in both build profiles (implementation only: the model is not run on them)
+    expect = {}
+    n = 60000 if tier == "quick" else 400000
+    build = "(progn (setq la nil) (setq lb nil) (setq al nil) (dotimes (i %d) (setq la (cons i la)) (setq lb (cons i lb)) (setq al (cons (cons (list i) i) al))) 'built)" % n
+    for req, exp in [("(equal la lb)", "OK t"), ("(equal la (cons 0 (cdr lb)))", "OK nil"), ("(cdr (assoc (list 0) al))", "OK 0"), ("(alist-get (list 5) al)", "OK 5"),
+                     ("(equal al al)", "OK t"), ("(equal (list la la) (list lb lb))", "OK t"),
+                     ("(let ((h (make-hash-table))) (puthash la 1 h) (gethash la h))", "OK 1"), ("(length la)", "OK %d" % n), ("(car (last la))", "OK 0"),
+                     ("(+ 1 la)", "ERR"), ("(nth %d la)" % (n - 1), "OK 0"), ("(plist-get la 'zz)", "OK nil")]:
+        if not expect: lines += ["NEW", "EVALBIG " + build]
+        lines.append("EVALBIG " + req)
+        expect[len(lines) - 1] = (req, exp)
+    return {"lines": lines, "meta": {"expect": expect, "build": build}, "distribution": {"requests": len(reqs), "builtins": len(names), "kinds": len(ks), "long_list_requests": len(expect)}}
+
+def oracle(lines, impl, model, meta):
+    bad = []
+    for i, (req, exp) in meta.get("expect", {}).items():
+        a = impl[i] or ""
+        ok = (a.startswith("OK") or a.startswith("ERR")) if exp is None else (a == exp or (exp == "ERR" and a.startswith("ERR")))
+        if not ok:
+            bad.append(("%s on long flat lists gave %s (expected %s)" % (req, a[:60], exp or "a value or an error"), ["NEW", "EVALBIG " + meta.get("build", ""), "EVALBIG " + lines[i][8:]], 2, a, exp))
+    return bad
 
 def count_nontrivial(lines, impl, model):
     return len({l for i, l in enumerate(lines) if l.startswith("EVAL") and (impl[i] or "").startswith("ERR")})
@@ -151,4 +172,4 @@ def normalize(line, ans):
 
 def ignore_line(line):
     # eq on number objects is about object identity (C14); not modelled for numbers
-    return line.startswith("EVAL (eq ") or "'eq " in line
+    return line.startswith("EVAL (eq ") or "'eq " in line or line.startswith("EVALBIG")
